@@ -283,19 +283,59 @@ func isPhiOf(v ssa.Value, x ssa.Value) bool {
 // of shardedData.ImmunizeSetOfDataAgainstEviction lies behind ImmunizeKeys, except returns decided
 // by the `keys` argument alone.
 func c27AdmissionAndImmunize(c *core.Ctx) {
-	if fn := anchorM(c, "storage/immunitycache", "immunityChunk", "evictItemsIfCapacityExceededNoLock"); fn != nil {
-		c.Analysed(fname(fn))
-		isEvict := func(in ssa.Instruction) bool {
-			cc := core.CallOf(in)
-			return cc != nil && cc.StaticCallee() != nil && cc.StaticCallee().Name() == "evictItemsNoLock"
+	isEvict := func(in ssa.Instruction) bool {
+		cc := core.CallOf(in)
+		return cc != nil && cc.StaticCallee() != nil && cc.StaticCallee().Name() == "evictItemsNoLock"
+	}
+	errorReturn := func(in ssa.Instruction, pred *ssa.BasicBlock) bool {
+		r, ok := in.(*ssa.Return)
+		if !ok {
+			return false
 		}
-		esc, path := core.PathQ{Fn: fn, Via: isEvict, Target: func(in ssa.Instruction, pred *ssa.BasicBlock) bool {
-			r, ok := in.(*ssa.Return)
-			if !ok {
+		return !core.NilReturn(r, pred)
+	}
+	// the same demand at the admission itself, wherever the capacity test lives (a helper or AddItem's own body):
+	// AddItem refuses (false, false) only behind the eviction step, or behind a helper whose every error comes out of it
+	if fn := anchorM(c, "storage/immunitycache", "immunityChunk", "AddItem"); fn != nil {
+		c.Analysed(fname(fn))
+		via := func(in ssa.Instruction) bool {
+			if isEvict(in) {
+				return true
+			}
+			cc := core.CallOf(in)
+			if cc == nil || cc.StaticCallee() == nil || cc.StaticCallee().Blocks == nil || cc.StaticCallee().Pkg != fn.Pkg || core.ErrIndex(cc.StaticCallee().Signature) < 0 {
 				return false
 			}
-			return !core.NilReturn(r, pred)
-		}}.Escape()
+			h := cc.StaticCallee()
+			if len(core.CallsIn(h, func(x ssa.Instruction, _ *ssa.CallCommon) bool { return isEvict(x) })) == 0 {
+				return false
+			}
+			esc, _ := core.PathQ{Fn: h, Via: isEvict, Target: errorReturn}.Escape()
+			return esc == nil
+		}
+		refusal := func(in ssa.Instruction, pred *ssa.BasicBlock) bool {
+			r, ok := in.(*ssa.Return)
+			if !ok || len(r.Results) != 2 {
+				return false
+			}
+			has, isH := core.ConstBool(core.RetOperand(r, 0))
+			added, isA := core.ConstBool(core.RetOperand(r, 1))
+			return isH && isA && !has && !added
+		}
+		n := 0
+		for _, r := range core.Returns(fn) {
+			if refusal(r, nil) {
+				n++
+			}
+		}
+		esc, path := core.PathQ{Fn: fn, Via: via, Target: refusal}.Escape()
+		c.Check(esc == nil && n > 0, "C27/refusal-only-after-eviction-walk", "immunityChunk.AddItem", fn.Pos(),
+			"the item is refused only behind the eviction step",
+			"AddItem can refuse an item (false, false) without the eviction step having been tried ("+c.P.PathString(path)+"): a full chunk holding evictable items stops admitting new ones")
+	}
+	if fn := optM(c, "storage/immunitycache", "immunityChunk", "evictItemsIfCapacityExceededNoLock"); fn != nil {
+		c.Analysed(fname(fn))
+		esc, path := core.PathQ{Fn: fn, Via: isEvict, Target: errorReturn}.Escape()
 		c.Check(esc == nil, "C27/refusal-only-after-eviction-walk", "immunityChunk.evictItemsIfCapacityExceededNoLock", fn.Pos(),
 			"an error (the item is refused) is returned only as the outcome of evictItemsNoLock",
 			"the chunk can refuse an item without having walked the eviction list ("+c.P.PathString(path)+"): a full chunk holding evictable items stops admitting new ones")
